@@ -29,6 +29,9 @@
 #include <cstdint>
 #include <cstdlib>
 #include <cmath>
+#ifdef _OPENMP
+#include <omp.h>
+#endif
 
 using namespace adept;
 
@@ -56,6 +59,7 @@ struct Result {
   std::string exception;     // what() of an exception that escaped the workload
   void push(double d) { uint64_t u; std::memcpy(&u, &d, 8); bits.push_back(u); }
   void pushi(long v) { bits.push_back((uint64_t)v); }
+  void pushs(const char* t) { for (; *t; ++t) bits.push_back((uint64_t)(unsigned char)*t); bits.push_back(0); }
   uint64_t hash() const {
     uint64_t h = 1469598103934665603ull;
     for (size_t i = 0; i < bits.size(); ++i) { h ^= bits[i]; h *= 1099511628211ull; }
@@ -183,6 +187,21 @@ static void c12_workload(uint64_t seed, int k, int rounds, Result& r) {
           r.pushi(Rm.offset(1)); r.pushi(Cm.offset(0)); r.pushi(D.offset(1)); r.pushi(D.offset(0) >= n + 5 ? 1 : 0);
           r.push(sum(Rm - Cm)); r.push(sum(D));
         }
+        // misuse raised and caught inside this thread (three different sites): the exception, its class and its message with
+        // the source location are this thread's own business — what() must read exactly as when the workload runs alone
+        {
+          Vector wrong(n + 1); wrong = 1.0;
+          try { Vector t2 = xv + wrong; r.pushi(-1); }
+          catch (const adept::exception& e) { r.pushs(e.what()); }
+          try { Matrix t3; t3.resize(-1 - g.below(3), 2); r.pushi(-2); }
+          catch (const adept::exception& e) { r.pushs(e.what()); }
+          try {
+            adouble u1 = 1.0, u2 = 2.0;
+            u1.add_derivative_dependence(X(0), 1.0);
+            u2.append_derivative_dependence(X(0), 1.0);      // u2 is not the variable of the last add_derivative_dependence
+            r.pushi(-3);
+          } catch (const adept::exception& e) { r.pushs(e.what()); }
+        }
         r.pushi(stack.n_statements()); r.pushi(stack.n_operations()); r.pushi(stack.n_gradients_registered());
         check_active(r, &stack);
       }
@@ -251,6 +270,48 @@ static int run_c12(int T, uint64_t seed, int rounds) {
   std::printf("stor live=%ld\n", (long)n_storage_objects());
   return bad;
 }
+
+#ifdef _OPENMP
+// The same workloads run by the members of ONE OpenMP team (g++ -fopenmp build, no ThreadSanitizer: libgomp is not
+// instrumented): inside a user's parallel region every library call is made from a team member, so a work-sharing construct or
+// a barrier inside the library would split one thread's own loop over the team or deadlock it.
+static int run_c12omp(int T, uint64_t seed, int rounds) {
+  std::vector<Result> solo(T), par(T);
+  for (int k = 0; k < T; ++k) {
+    c12_workload(seed, k, rounds, solo[k]);
+    std::printf("solo %d n=%zu h=%016llx\n", k, solo[k].bits.size(), (unsigned long long)solo[k].hash());
+  }
+  long created0 = (long)n_storage_objects_created(), deleted0 = (long)n_storage_objects_deleted();
+  #pragma omp parallel num_threads(T)
+  {
+    int k = omp_get_thread_num();
+    // team members make different numbers of library calls (different rounds), as in real applications
+    if (k < T) {
+      try { c12_workload(seed, k, rounds, par[k]); }
+      catch (const std::exception& e) { par[k].exception = e.what(); }
+    }
+  }
+  int bad = 0;
+  for (int k = 0; k < T; ++k) {
+    bool eq = (par[k].bits == solo[k].bits);
+    if (!eq) bad++;
+    std::printf("par %d n=%zu h=%016llx eq=%d\n", k, par[k].bits.size(), (unsigned long long)par[k].hash(), eq ? 1 : 0);
+    if (!par[k].exception.empty()) std::printf("exc %d %s\n", k, par[k].exception.c_str());
+  }
+  long wa = 0, wn = 0, sa = 0, sn = 0;
+  for (int k = 0; k < T; ++k) {
+    wa += par[k].wrong_active + solo[k].wrong_active; wn += par[k].wrong_null + solo[k].wrong_null;
+    sa += par[k].samples_active + solo[k].samples_active; sn += par[k].samples_null + solo[k].samples_null;
+  }
+  std::printf("act owner_samples=%ld owner_wrong=%ld stackless_samples=%ld stackless_nonzero=%ld idle_threads_samples=0 idle_threads_nonzero=0 main_samples=0 main_nonzero=0\n",
+              sa, wa, sn, wn);
+  // the global bookkeeping counters are exact after the join: the parallel phase created and deleted exactly as many
+  // Storage objects as the same workloads did when run alone
+  std::printf("stor live=%ld created_par=%ld deleted_par=%ld created_solo=%ld\n", (long)n_storage_objects(),
+              (long)n_storage_objects_created() - created0, (long)n_storage_objects_deleted() - deleted0, created0);
+  return bad;
+}
+#endif
 
 // ---------------------------------------------------------------------------------------------------------------
 // C14 workloads: views of ONE shared storage + private arrays
@@ -573,6 +634,9 @@ int main(int argc, char** argv) {
   int bad = 0;
   try {
     if (mode == "c12") bad = verif::run_c12(T, seed, rounds);
+#ifdef _OPENMP
+    else if (mode == "c12omp") bad = verif::run_c12omp(T, seed, rounds);
+#endif
 #ifdef ADEPT_STORAGE_THREAD_SAFE
     else if (mode == "c14ts") bad = verif::run_c14<false>(T, seed, rounds);
 #else
